@@ -27,7 +27,7 @@ def _oracle(ctx, area, n, label):
     k = 14
     chunks = [lines[i::k] for i in range(k)]
     with ThreadPoolExecutor(max_workers=k) as ex:
-        res = list(ex.map(lambda c: ctx.run_impl(area, c, timeout=300) if c else [], chunks))
+        res = list(ex.map(lambda c: ctx.run_impl(area, c, timeout=1200) if c else [], chunks))
     if any(r is None for r in res):
         return
     lines = [l for c in chunks for l in c]
@@ -102,13 +102,53 @@ class _Tagger:
         return w[0]
 
 
+class _WrapTagger:
+    """Classifies the lines of the machine-integer stream by the domain of the transfer theorems: `box` = inside
+    [-2^60, 2^60]^2 (C07.int64_run / int64_queries / int64_linear_scan apply to the history so far), `beyond` = outside
+    the box but no X+Width / Y+Height leaves int64, `wraps` = a stored rectangle wraps."""
+    B = 1 << 60
+    LIM = 1 << 63
+
+    def __init__(self):
+        self.cls = "box"
+
+    def kind(self, x, y, w, h):
+        if w <= 0 or h <= 0:
+            return "empty"
+        if not (-self.LIM <= x + w < self.LIM and -self.LIM <= y + h < self.LIM):
+            return "wraps"
+        if -self.B <= x and x + w <= self.B and -self.B <= y and y + h <= self.B:
+            return "box"
+        return "beyond"
+
+    def __call__(self, l, o):
+        w = l.split()
+        if not w:
+            return None
+        if w[0] == "reset":
+            self.cls = "box"
+            return "w reset"
+        if w[0] == "ins" and len(w) == 6:
+            k = self.kind(*[int(v) for v in w[2:]])
+            order = ["empty", "box", "beyond", "wraps"]
+            if order.index(k) > order.index(self.cls):
+                self.cls = k
+            return "w ins " + k
+        if w[0] == "probe" and len(w) == 9:
+            q = self.kind(*[int(v) for v in w[3:7]])
+            return "w probe history-in-%s query-%s" % (self.cls, "safe" if q != "wraps" else "wraps")
+        return "w " + w[0]
+
+
 def run(ctx):
     ctx.modelled += [
         "a stored node is (id, rect): identity is Go's comparable pointer, Bounds() is constant while stored "
         "(the contract the package documents); the same object inserted twice is two entries",
-        "float64 coordinates are exact rationals (inputs are dyadic rationals k/2^j, j<=3, |k|<=2^20, for which the "
-        "halvings and sums of splitIfNeeded / Union are exact in float64); int overflow is outside the model",
-        "the recursion insert -> splitIfNeeded -> insert is fuelled (fuel 200 in the driver); the driver answers "
+        "in the `f` histories float64 coordinates are exact rationals (inputs are dyadic rationals k/2^j, j<=3, |k|<=2^20, "
+        "for which the halvings and sums of splitIfNeeded / Union are exact in float64) and in the `i` histories ints are "
+        "unbounded; int wrap-around and float rounding are INSIDE the model in the `w` (Int64) and `d` (IEEE double) "
+        "histories",
+        "the recursion insert -> splitIfNeeded -> insert is fuelled (fuel 200 in the driver, 2300 for doubles); the driver answers "
         "`out-of-fuel` if any node reaches that depth, which is a mismatch against a live implementation, and an "
         "implementation that dies (stack overflow) against a model answer is a mismatch too",
         "query results are compared as sorted id lists (order of the returned slice is not part of the property)",
@@ -120,18 +160,28 @@ def run(ctx):
         "Threshold is set in mid-history to 0, +-1, negative, MinInt, 3, 4, 5, 7, 10, 12, 63..65 and MaxInt; int "
         "coordinates go up to 2^60 (huge root above unit squares, 60 levels) but never so far that X+Width leaves "
         "int64; a watchdog ends the harness when one operation runs for more than 10 s",
+        "Go int is modelled twice from the same transcription (QT.geomOps): at unbounded Int (the theorems) and at core "
+        "Lean's Int64 (QT.instI64, `reset w` histories: wrapping arithmetic exactly as compiled Go); the two are tied by "
+        "the simulation theorem C07.int64_run",
+        "MinQuadTreeThreshold / DefaultQuadTreeThreshold are not copied into the model: Tree.thr reads them from "
+        "Generated/Facts.lean, which factgen writes from the repository on every run",
         "the sixteen query methods are instances of two generic traversals (Node.find / Node.any) with the pruning "
         "test and the item test of the respective Go function",
     ]
     ctx.assumptions += [
-        "the Lean model computes in exact arithmetic (Int, Rat): its theorems cover int coordinates and every float64 "
-        "history on which the unions/halvings/sums of the quadtree are exact; they do NOT cover float rounding (in "
-        "exact arithmetic the guard of Reorganize is always true, C07.reorganize_guard_exact, whereas a rounded union "
-        "can leave a node sticking out of the root by an ulp). The evidence for the 'floating-point coordinates "
-        "(whole or fractional)' clause under rounding is the implementation-side oracle area `floatscan`: histories "
-        "over non-dyadic float64 rectangles, after every mutation Size/All and all 16 queries are compared with a "
-        "linear scan using the library's own geom predicates on the same float values, probed at and one ulp around "
-        "the right/bottom edges of the stored rectangles and of their union",
+        "floating-point coordinates: the exact theorems (find*_eq_filter at Rat) cover every float64 history on which the "
+        "unions/halvings/sums of the quadtree are exact (dyadic inputs; there the guard of Reorganize is always true, "
+        "C07.reorganize_guard_exact). Under ROUNDING: C07.abs_run_machine proves Size/All for the IEEE-double instance "
+        "QT.instF64 itself (no law of the arithmetic is needed); C07.queries_any_arithmetic / _matched / "
+        "queries_hist_any_arithmetic prove the queries for ANY linearly ordered coordinate type with arbitrary +,- "
+        "(geom's predicates only compare the computed X, Y, Right(), Bottom()): point and intersection queries "
+        "unconditionally, FindContainsRect when the (non-empty) query has X < Right() and Y < Bottom() as computed, "
+        "FindContainedByRect when the stored rectangles have. Assumed: float64 comparisons on non-NaN values are a linear "
+        "order, and core Lean's Float (opaque to the logic) computes like Go's float64 - the latter is what area "
+        "`quadfloat` checks line by line (histories over non-dyadic floats, probes at and one ulp around the "
+        "right/bottom edges, plus the exact histories of area quadtree once more through the Float instance). "
+        "Independent of any model, the implementation-side oracle `floatscan` compares Size/All and all 16 queries "
+        "after every mutation with a linear scan using the library's own geom predicates on the same float values",
         "floatscan judged domain: every history whose STORED rectangles all have a representable point (sizes down "
         "to one ulp of the coordinate, magnitudes 1e-12 .. 1e16 are generated). A rectangle whose positive "
         "width/height is absorbed by rounding (fl(X+Width) == X) is non-Empty and Contains itself although nothing "
@@ -141,25 +191,39 @@ def run(ctx):
         "are dropped when absorbed",
     ]
     ctx.assumptions += [
-        "integer domain of the theorems: the model computes in unbounded integers, Go int wraps. The theorems (abs_run, "
-        "find*_eq_filter, fuel_*) transfer to Go for histories in which every value the source computes stays within "
-        "int64: every stored and query rectangle has X+Width and Y+Height within int64 AND the union of the stored "
-        "rectangles is narrower than 2^63 on both axes. Outside that domain the evidence is the implementation-side "
-        "oracle `intwrap` (linear scan with the library's predicates, these cross-checked against math/big): "
-        "histories where no rectangle wraps are judged strictly, also when the union is wider than 2^63 (the root "
-        "computed by Reorganize then wraps to an Empty rectangle and the Contains guard keeps everything in the "
-        "scanned outside list); a rectangle whose X+Width leaves int64 makes geom's Contains/Intersects mutually "
-        "inconsistent, so the pruned queries disagree with the scan: KNOWN FINDING by specific histories "
-        "(corpus/C07/intwrap.known-wrap.ops, op word iws, matched against known_findings.json); generated "
-        "histories of that class are counted (oracle_intwrap_wrap-mismatch / wrap-agree), not alarmed",
-        "fuel: fuel_suffices_int needs a box with W+H < fuel; the driver's fuel is 200 while int histories contain "
-        "squares up to 2^60, so for the histories actually run the theorem does not apply and the run-time test "
-        "Tree.fuelOK (out-of-fuel = mismatch) is the guard; the real depth is logarithmic. For Rat, "
-        "split_depth_rat / reorganize_depth_rat bound the depth by k whenever root width < smallest item width * "
-        "2^k (node level and one Reorganize; not lifted to whole histories, no fuel-independence theorem for Rat)",
-        "OpOK fixes ONE bounds function for the whole history: a node id cannot be removed, given other bounds and "
-        "re-inserted under the same id (the package allows that for a node that is not stored); the harness "
-        "enforces the same restriction, so that pattern is not exercised - it is covered only up to renaming ids",
+        "integer domain of the theorems: abs_run, find*_eq_filter, fuel_* are about unbounded integers (QT.instInt), Go int "
+        "wraps. The model at machine integers QT.instI64 (core Lean's Int64: wrapping + and -, truncating /2, signed "
+        "comparisons; the same transcription) carries them over BY THEOREM: C07.int64_safe_linear_scan - every history "
+        "in which no stored and no query rectangle wraps (X+Width, Y+Height within int64; anywhere in the range, union "
+        "wider than 2^63 included): the four Find* = linear scan with the mathematical predicates; "
+        "C07.queries_int64_everywhere - every history whatsoever: point and intersection queries = linear scan with "
+        "the machine's predicates, containment queries as long as the query / the stored rectangles do not wrap; "
+        "C07.abs_run_machine - Size/All for every history; C07.int64_run / int64_queries inside the box "
+        "[-2^60, 2^60]^2 - the machine tree is node for node the Int64.toInt image of the unbounded tree and all 16 "
+        "queries answer alike (no Right(), Bottom(), Union or quadrant computation wraps, the hw x hw child 0 included). "
+        "What remains assumed is that Go's int arithmetic is Int64's (two's complement, 64-bit platform) - and that is "
+        "what area `quadwrap` checks: the Int64 model against QuadTree[int] line by line, on the int histories of area "
+        "quadtree and on histories at the ends of the int64 range. A rectangle whose X+Width leaves int64 makes geom's "
+        "Contains/Intersects mutually inconsistent, so the pruned containment queries disagree with the scan: KNOWN "
+        "FINDING by specific histories (corpus/C07/intwrap.known-wrap.ops, op word iws, matched against "
+        "known_findings.json; the same two inputs are the Lean theorems C07.int64_box_needed / "
+        "int64_stored_wrap_needed about the Int64 model); generated histories of that class are counted by the "
+        "implementation-side oracle `intwrap` (code = linear scan with the library's predicates, these cross-checked "
+        "against math/big; oracle_intwrap_wrap-mismatch / wrap-agree) and quadwrap compares only Size/All there (probes "
+        "are not translated while a wrapping rectangle is stored or probed)",
+        "fuel: fuel_suffices_int_log / fuel_irrelevant_int (sides of the box <= 2^j: depth <= j+1 after every prefix, and "
+        "every fuel above j+1 builds the same tree) cover every int history that is run (box +-2^60, j = 61, driver fuel "
+        "200), int64_fuel_suffices the machine-integer histories inside the box; fuel_suffices_rat bounds the depth of "
+        "every exact-rational history by j whenever box width < smallest item width * 2^j, fuel_irrelevant_rat makes "
+        "the fuel unobservable there; the IEEE-double histories run with fuel 2300 (halving a double reaches 0 after about 2100 levels) "
+        "and have no fuel theorem. In every case the driver additionally tests Tree.fuelOK at run time (out-of-fuel "
+        "against a live implementation is a mismatch)",
+        "contract: abs_run ... find*_eq_filter fix ONE bounds function per history (OpOK); the package only demands that "
+        "Bounds() stays the same WHILE a node is stored, and abs_run_hist / queries_hist / threshold_reorganize_invisible "
+        "are stated under that history-dependent contract (HistOK; OpOK is the special case hist_of_opOK). The harness "
+        "gives objects that are not stored other bounds now and then (tag `ins same-object-new-bounds`); a history cut "
+        "down by the minimiser that breaks the contract answers `contract` on both sides. That the contract is needed is "
+        "C07.contract_needed",
     ]
     ctx.lean(props=["Props.C07"], drivers=["drv_c07"])
     ctx.harness("./cmd/c07")
@@ -168,8 +232,19 @@ def run(ctx):
              tagger=_Tagger(),
              theorem="C07.abs_run / size_run / find_eq_filter / bool_iff_find_nonempty (model = linear scan); "
                      "impl != model on this history")
-    _oracle(ctx, "floatscan", {"quick": 6000, "thorough": 300000},
+    ctx.diff(area="quadwrap", driver="drv_c07", n={"quick": 80000, "thorough": 800000}, stateful=True, timeout=300,
+             trivial=lambda l, o: o == "ok", tagger=_WrapTagger(),
+             theorem="model at machine integers (QT.instI64 = geom/quadtree transcription at Int64, wrapping like Go int) "
+                     "!= impl on this history; inside the +-2^60 box C07.int64_* carries the linear-scan theorems over")
+    ctx.diff(area="quadfloat", driver="drv_c07", n={"quick": 80000, "thorough": 800000}, stateful=True, timeout=300,
+             trivial=lambda l, o: o == "ok",
+             tagger=lambda l, o: "d " + (l.split()[0] if not (l.startswith("probe") and all(h == "-" for h in o.split()[1::2]))
+                                         else "probe all-empty"),
+             theorem="model at IEEE doubles (QT.instF64 = geom/quadtree transcription at core Lean's Float, rounding like "
+                     "Go float64; Size/All: C07.abs_run_machine, queries: C07.queries_any_arithmetic for an abstract rounded "
+                     "arithmetic) != impl on this history (non-dyadic floats, or an exact dyadic history of area quadtree)")
+    _oracle(ctx, "floatscan", {"quick": 6000, "thorough": 150000},
             "quadtree vs linear scan with the library's geom predicates on rounding float64 coordinates")
-    _oracle(ctx, "intwrap", {"quick": 20000, "thorough": 600000},
+    _oracle(ctx, "intwrap", {"quick": 20000, "thorough": 400000},
             "QuadTree[int] at the ends of the int64 range vs linear scan with the library's geom predicates "
             "(cross-checked against unbounded-integer arithmetic)")
